@@ -441,6 +441,24 @@ class SSeq:
     def encode(self, encoding='utf-8', errors='strict'):
         return encode(self, encoding)
 
+    def isascii(self):
+        return And(*[x <= 127 for x in self.items])
+
+    def _all_in(self, ranges):
+        if not self.items:
+            return False
+        return And(*[Or(*[And(x >= a, x <= b) for a, b in ranges])
+                     for x in self.items])
+
+    def isalpha(self):
+        return self._all_in([(65, 90), (97, 122)])
+
+    def isalnum(self):
+        return self._all_in([(48, 57), (65, 90), (97, 122)])
+
+    def isspace(self):
+        return self._all_in([(9, 13), (32, 32)])
+
     def isdigit(self):
         if not self.items:
             return False
